@@ -1159,9 +1159,19 @@ class Scanner:
         guard = 0
         while self.taint_work:
             guard += 1
-            if guard > 5000:
-                raise TranslateError("taint propagation does not terminate")
-            kind, payload = self.taint_work.pop()
+            kind, payload, self.cur_depth = self.taint_work.pop(0)
+            if guard > 400 or len(self.facts) > 3000:
+                # the run-dependent value spreads through the program (e.g. it seeds the search): stop following it and
+                # say so with a fact that the rules classify as leaking
+                src0 = payload[0] if kind == "var" else payload[0].file
+                pos0 = (payload[1].head if payload[1] else 0) if kind == "var" else payload[0].head
+                self.taint_work = []
+                # keep the facts near the roots readable: drop what was collected far away from them
+                self.facts = [f for f in self.facts if not (f.kind == "KEntropyUse" and getattr(f, "depth", 0) > 2)]
+                self.cur_depth = 0
+                self.use(src0, pos0, "(taint propagation cut off)", "ASinkUnknown", payload[3] if kind == "var" else payload[1],
+                         "more than 400 variables/functions carry the value: it is not confined to statistics")
+                break
             if kind == "var":
                 self.follow_var(*payload)
             elif kind == "func":
@@ -1173,8 +1183,16 @@ class Scanner:
             return
         self.seen_uses.add(k)
         self.add(s, pos, "KEntropyUse", ident, [sink], ("from %s; " % root) + note)
+        self.facts[-1].depth = getattr(self, "cur_depth", 0)
 
     def consume(self, s, a, b, ident, root, mode="value"):
+        try:
+            return self._consume(s, a, b, ident, root, mode)
+        except (IndexError, AttributeError, ValueError) as e:
+            self.use(s, a, ident, "ASinkUnknown", root, "statement not understood by the scanner (%s)" % type(e).__name__)
+            return False
+
+    def _consume(self, s, a, b, ident, root, mode="value"):
         """classify the statement that contains the tainted expression s.bare[a:b]; returns True when understood"""
         t = s.struct_txt
         sa, sb = s.statement_at(a, b)
@@ -1275,6 +1293,8 @@ class Scanner:
         if call:
             fn, argi, callpos = call
             simple = fn.split("::")[-1].split(".")[-1].split("->")[-1]
+            if ("." in fn or "->" in fn) and simple in (self.DEST_FIRST | self.OUTPARAM_CALLS | {"fopen", "popen", "free", "delete"}):
+                simple = "method:" + simple      # a method that happens to carry a libc name
             if simple in self.NEUTRAL_CALLS or simple == "void":
                 self.use(s, a, ident, "ASinkNeutral", root, line)
                 return True
@@ -1293,7 +1313,8 @@ class Scanner:
                 args = split_top(stmt[lp + 1:match_paren(stmt, lp)])
                 outs = [re.sub(r"^&\s*", "", x) for x in args[1:] if x.startswith("&")]
                 if simple in ("fgets", "fread", "read") and args:
-                    outs = [re.match(r"&?\s*(" + IDENT + ")", args[0 if simple != "read" else 1]).group(1)]
+                    mo = re.match(r"&?\s*(" + IDENT + ")", args[min(len(args) - 1, 0 if simple != "read" else 1)])
+                    outs = [mo.group(1)] if mo else []
                 for o in outs:
                     self.taint_var(s, f, re.match(IDENT, o).group(0), root, a)
                 if outs:
@@ -1444,7 +1465,7 @@ class Scanner:
         if key in self.seen_uses:
             return
         self.seen_uses.add(key)
-        self.taint_work.append(("var", (s, f if local else None, name, root, cls)))
+        self.taint_work.append(("var", (s, f if local else None, name, root, cls), getattr(self, "cur_depth", 0) + 1))
         if not local:
             self.ref_member_sites(name, root, cls)
 
@@ -1453,7 +1474,7 @@ class Scanner:
         if nm in self.tainted_funcs:
             return
         self.tainted_funcs[nm] = root
-        self.taint_work.append(("func", (f, root)))
+        self.taint_work.append(("func", (f, root), getattr(self, "cur_depth", 0) + 1))
 
     def follow_var(self, s, f, name, root, cls=None):
         """every other occurrence of a tainted variable.  Local variable / parameter: the function.  Member of class C:
